@@ -1,14 +1,16 @@
-SPECIFICATION GenSpec
+SPECIFICATION Spec
 CONSTANTS
-  Nodes = {1, 2, 3}
+  Nodes = {1, 2}
   Slots = {"A", "B"}
   Keys = {"a1", "a2", "b1"}
   SlotOf <- MCSlotOf
-  MaxCmds = 8
-  MaxHops = 4
-  WithMigration = FALSE
+  MaxCmds = 4
+  MaxHops = 3
+  WithMigration = TRUE
   EmptyTableAtStart = FALSE
   AtomicAsk = TRUE
   WithFailover = FALSE
   FixRefreshOnDialError = TRUE
+INVARIANTS EqualsReference EffectOnce SingleCopy CopyIsReference NoLostKey FirstHopIsOwner
+CONSTRAINT HopBound
 CHECK_DEADLOCK FALSE
